@@ -32,16 +32,19 @@ def check_last(c, prog, rule):
     """ValueBlindingFactor::last hands inputs as the positive and outputs as the negative set, triple by triple, unfiltered"""
     L = Fn(prog, VBF + "::last")
     r = [sh(s[1]) for cx, s in L.flat if s[0] == "ret"]
-    CL0 = "closure:%s::last::{closure#0}{}" % VBF
-    CL1 = "closure:%s::last::{closure#1}{}" % VBF
-    want = ("%s::ValueBlindingFactor{secp256k1_zkp::compute_adaptive_blinding_factor(arg1, arg2, arg3.0, std::iter::Iterator::collect(std::iter::Iterator::map(arg4, %s)), "
-            "std::iter::Iterator::collect(std::iter::Iterator::map(arg5, %s)))}" % (VBF, CL0, CL1))
-    c.inst(rule, "last(): inputs form the first (positive) set, outputs the second", r == [want], "returns %s" % r, L.f.where(), L.f.path)
-    for i in (0, 1):
-        CF = Fn(prog, "%s::last::{closure#%d}" % (VBF, i))
-        r = [sh(s[1]) for cx, s in CF.flat if s[0] == "ret"]
-        c.inst(rule, "triple (value, abf, vbf) -> CommitmentSecrets{value, value_blinding_factor: vbf, generator_blinding_factor: abf} (closure %d)" % i,
-               r == ["secp256k1_zkp::CommitmentSecrets::CommitmentSecrets{arg2.0, arg2.2.0, confidential::AssetBlindingFactor::into_inner(arg2.1)}"], "returns %s" % r, CF.f.where(), CF.f.path)
+    pat = (r"^%s::ValueBlindingFactor\{secp256k1_zkp::compute_adaptive_blinding_factor\(arg1, arg2, arg3\.0, "
+           r"std::iter::Iterator::collect\(std::iter::Iterator::map\(arg4, closure:((?:[^{}]|\{closure#\d+\})+)\{\}\)\), "
+           r"std::iter::Iterator::collect\(std::iter::Iterator::map\(arg5, closure:((?:[^{}]|\{closure#\d+\})+)\{\}\)\)\)\}$" % re.escape(VBF))
+    m = re.match(pat, r[0]) if len(r) == 1 else None
+    c.inst(rule, "last(): inputs form the first (positive) set, outputs the second", m is not None, "returns %s" % r, L.f.where(), L.f.path)
+    if m is None:
+        return
+    for i, cl in enumerate(m.groups()):
+        CF = Fn(prog, cl)
+        rr = [(sh(s[1]), [k for k, cn, a in cx]) for cx, s in CF.flat if s[0] == "ret"]
+        c.inst(rule, "triple (value, abf, vbf) -> CommitmentSecrets{value, value_blinding_factor: vbf, generator_blinding_factor: abf}, every triple unchanged (%s set)" % ("positive", "negative")[i],
+               rr == [("secp256k1_zkp::CommitmentSecrets::CommitmentSecrets{arg2.0, arg2.2.0, confidential::AssetBlindingFactor::into_inner(arg2.1)}", [])],
+               "closure %s returns %s" % (cl.rsplit("::", 1)[-1], rr), CF.f.where(), CF.f.path)
 
 
 def run(c, prog, ctx):
